@@ -23,7 +23,7 @@ func TestDev(t *testing.T) {
 	}
 	for _, compile := range []bool{false, true} {
 		e := runRef(forms, true)
-		o := runSlip(forms, compile, true)
+		o := runSlip(forms, compile, true, 0)
 		fmt.Printf("compile=%v\n ref : vals=%v err=%v notes=%v\n       trace=%s\n slip: vals=%v err=%v\n       trace=%s\n", compile, e.vals, e.err, e.notes, traceStr(e.trace), o.vals, o.err, traceStr(o.trace))
 		k, d := compare(e, o)
 		fmt.Printf(" => %s %s\n", k, d)
@@ -46,7 +46,7 @@ func TestDevShrink(t *testing.T) {
 		if e.err != nil {
 			return false
 		}
-		k, _ := compare(e, runSlip(cand, compile, false))
+		k, _ := compare(e, runSlip(cand, compile, false, 0))
 		return k != ""
 	}
 	fmt.Println("orig diverges:", still(forms))
